@@ -1839,7 +1839,9 @@ class PseudoNetCDFFile(PseudoNetCDFSelfReg, object):
                             for yyyy, day in zip(yyyys, days)])
             if bounds:
                 if hasattr(self, 'TSTEP'):
-                    tstep = getattr(self, 'TSTEP')
+                    # int: a file from disk hands out numpy.int32, which
+                    # timedelta does not accept
+                    tstep = int(getattr(self, 'TSTEP'))
                     sh = tstep // 10000 * 3600
                     sm = tstep % 10000 // 100 * 60
                     ss = tstep % 100
